@@ -30,12 +30,14 @@ def sameCells (a b : List (List Nat)) : Bool :=
   a.length == b.length &&
   (List.range a.length).all fun c => sortRow (a.getD c []) == sortRow (b.getD c [])
 
+/-- the partner type of B carries the same cells as type `c` of A -/
+def cellOk (A B : Mesh) (c : String) : Bool :=
+  match targetType B.cellTypes c with
+  | none => false
+  | some t => sameCells (A.cellsOf c) (B.cellsOf t)
+
 /-- for every type of A: the partner type of B carries the same cells -/
-def cellsSpec (A B : Mesh) : Bool :=
-  A.cellTypes.all fun c =>
-    match targetType B.cellTypes c with
-    | none => false
-    | some t => sameCells (A.cellsOf c) (B.cellsOf t)
+def cellsSpec (A B : Mesh) : Bool := A.cellTypes.all (cellOk A B)
 
 def meshEqualSpec (rel abs : Nat) (A B : Mesh) : Bool :=
   pointsSpec rel abs A B && typesSpec A.cellTypes B.cellTypes && cellsSpec A B
